@@ -792,6 +792,8 @@ class Builtins:
             return Unknown(I.run.new_tag("bytes"))
         if name in ("partition", "rpartition"):
             return Unknown(I.run.new_tag(f"{s.render()}.{name}({argtxt})"))
+        if name not in dir(str):
+            I.raise_exc("AttributeError", [Str.lit(f"'str' object has no attribute '{name}'")], node, fr)
         raise I.unsupported(f"str.{name} on {s!r}", node, fr)
 
     def join(self, sep: Str, it: Value, node, fr) -> Value:
@@ -989,6 +991,11 @@ class Builtins:
                     return r
         if isinstance(recv, TupleV) and meth in ("index", "count"):
             return Unknown(I.run.new_tag(f"tuple.{meth}"), {"type": "int"})
+        if isinstance(recv, (IntV, BoolV, FloatV)) or recv is NONE:
+            ty = "NoneType" if recv is NONE else type(recv).__name__[:-1].lower()
+            known = {"int": dir(int), "bool": dir(bool), "float": dir(float), "NoneType": dir(None)}[ty]
+            if meth not in known:
+                I.raise_exc("AttributeError", [Str.lit(f"'{ty}' object has no attribute '{meth}'")], node, fr)
         raise I.unsupported(f"method {meth} on {recv!r}", node, fr)
 
     # ---- builtins ----------------------------------------------------------
